@@ -62,6 +62,14 @@ def r1(run: Run, src, g, em, cg):
     if not minters:
         raise AnalysisError('C03.R1', 'no function mints references')
     mint = [m for m in minters if m.cls is not None and m.cls.name == 'Context'][0]
+    # how the context hands out references: decided by evaluation of the context on a history of registrations; the structural
+    # reading below is the fallback
+    from . import pipeline_eval
+    try:
+        pipeline_eval.context_obligations(run, 'C03.R1', src, g)
+        return _r1_translators(run, src, g, em, cg)
+    except AnalysisError as e_:
+        run.note(f'C03.R1: the context by structure ({e_.reason[:120]})')
     callers = {s.caller.qualname: s for s in cg.callers_of(mint)}
     ctx = src.cls('Context')
     allowed = {'Context.get_cell', 'Context.set_sub_cell'}
@@ -131,6 +139,10 @@ def r1(run: Run, src, g, em, cg):
     run.check('_cell_translations' in txt and '_get_divided_sub_cell_translations' in txt, 'C03.R1', 'Context.build_class/members',
               'members-dropped', 'build_class does not emit both the cell members and the sub-cell members', fact='cells + sub-cells',
               loc=loc_of(bc.module.path, bc.node))
+    _r1_translators(run, src, g, em, cg)
+
+
+def _r1_translators(run: Run, src, g, em, cg):
     # areas are printed cell by cell through CellTranslator
     for tr, tk in (('CellIdentifierRangeTokenTranslator', 'CellIdentifierRangeToken'),
                    ('MatrixOfCellIdentifiersTokenTranslator', 'MatrixOfCellIdentifiersToken')):
